@@ -41,6 +41,8 @@ Proof. exact later_files_do_not_matter. Qed.
    Then (the two C14_trivia theorems): any run of blanks, block comments, line comments with their line feed and line
    splices after such a token, unless the token begins with a slash (the text of a comment directly after the
    operator `/` is not a comment there: the two slashes open a line comment).
+   Then: trivia in front of the first token, and trivia behind any such token that stands after a prefix of such
+   tokens separated by single blanks (C14_trivia_behind_a_spaced_prefix_partial).
    Missing: numeric literals as the token in front (their recognisers look ahead up to four characters), tokens in
    front of the insertion point when the file does not start with the
    token (that they do not look ahead that far is not proved), and everything after the lexer (directive lines,
@@ -119,6 +121,47 @@ Proof.
   vm_compute. repeat split. discriminate.
 Qed.
 
+(* trivia in front of the first token of a file *)
+Theorem C14_trivia_at_the_start_partial :
+  forall keywords reserved_words symbols int_suffixes float_suffixes float_is_zero utf8_ok x (s : string) spans,
+    Trivia x ->
+    lex_file keywords reserved_words symbols int_suffixes float_suffixes float_is_zero utf8_ok s = SOk spans ->
+    exists spans', lex_file keywords reserved_words symbols int_suffixes float_suffixes float_is_zero utf8_ok (x ++ s) = SOk spans' /\
+                   strip (toks spans') = strip (toks spans).
+Proof. exact trivia_at_start. Qed.
+
+(* any token boundary behind a prefix of such tokens that are separated by single blanks: the prefix `p` is a run of
+   identifier / keyword / symbol / string tokens each followed by one blank (`Spaced`), the token in front of the
+   insertion point is of that kind and does not begin with a slash, the rest of the file is arbitrary *)
+Theorem C14_trivia_behind_a_spaced_prefix_partial :
+  forall keywords reserved_words symbols int_suffixes float_suffixes float_is_zero utf8_ok p tp c a' (b : string) t x spans,
+    Spaced keywords reserved_words symbols int_suffixes float_suffixes float_is_zero utf8_ok p tp ->
+    tok_at keywords reserved_words symbols int_suffixes float_suffixes float_is_zero utf8_ok false (String c a' ++ b) = LOk t (slen (String c a')) ->
+    solid t = true -> Ascii.eqb c "/" = false -> Trivia x ->
+    lex_file keywords reserved_words symbols int_suffixes float_suffixes float_is_zero utf8_ok (p ++ String c a' ++ b) = SOk spans ->
+    exists spans', lex_file keywords reserved_words symbols int_suffixes float_suffixes float_is_zero utf8_ok (p ++ String c a' ++ x ++ b) = SOk spans' /\
+                   strip (toks spans') = strip (toks spans).
+Proof. exact trivia_after_token_behind_spaced_prefix. Qed.
+
+(* non-vacuity with the real tables: `return x += y;` - the prefix `return x += `, the token `y`, a comment and a line
+   splice inserted in front of the `;` *)
+Local Open Scope string_scope.
+Example C14_spaced_prefix_example :
+  let sp := Spaced keywords reserved_words symbols int_suffixes float_suffixes (fun _ => false) (fun _ => true) in
+  let lex := lex_file keywords reserved_words symbols int_suffixes float_suffixes (fun _ => false) (fun _ => true) in
+  let nonws s := option_map strip (match lex s with SOk l => Some (toks l) | _ => None end) in
+  (exists tp, sp ("return" ++ String " " ("x" ++ String " " ("+=" ++ String " " ""))) tp) /\
+  nonws "return x += y;"%string = nonws ("return x += y" ++ (("/*" ++ " c " ++ "*/") ++ (String "\" (String "010" ""))) ++ ";")%string.
+Proof.
+  cbv zeta. split.
+  - eexists. apply SpCons; [vm_compute; reflexivity|reflexivity|left; reflexivity|].
+    apply SpCons; [vm_compute; reflexivity|reflexivity|left; reflexivity|].
+    apply SpCons; [vm_compute; reflexivity|reflexivity|left; reflexivity|]. apply SpNil.
+  - vm_compute. reflexivity.
+Qed.
+Local Close Scope string_scope.
+
+
 (* ---- non-vacuity ---- *)
 Example C14_example :
   let a := [105; 110; 116; 10] in           (* "int\n" *)
@@ -141,3 +184,5 @@ Print Assumptions C14_blank_after_a_token_keeps_the_rest_partial.
 Print Assumptions C14_blank_after_the_first_token_partial.
 Print Assumptions C14_trivia_after_a_token_keeps_the_rest_partial.
 Print Assumptions C14_trivia_after_the_first_token_partial.
+Print Assumptions C14_trivia_at_the_start_partial.
+Print Assumptions C14_trivia_behind_a_spaced_prefix_partial.
